@@ -174,7 +174,15 @@ def run_case(case) -> CaseResult:
                 raise t.exception()
         return len(pending)
 
-    stuck, errors = simloop.run_case_on_loop(main)
+    try:
+        stuck, errors = simloop.run_case_on_loop(main)
+    except simloop.HarnessLivelock as exc:
+        # the only polling code in a case is take_tokens(): on the unchanged tree a case needs < 100 000 loop
+        # iterations (10 ms polls); millions of iterations mean a request for tokens that polls without ever returning
+        res.violate('C20/take-tokens-never-returned:spinning',
+                    f'{exc}: a request for tokens polled for ever in ever shorter sleeps without being granted '
+                    f'(limit {case.get("limit")} KiB/s, grants so far {len(grants)})')
+        return res
     if stuck or flags.get('stuck'):
         res.violate('C20/take-tokens-never-returned',
                     f"consumers {flags.get('stuck')} did not get tokens within 120 s of virtual time "
